@@ -439,8 +439,9 @@ class C02Order(Oracle):
             for g in groups:
                 if g & set(names):
                     rivals |= g
-            if len(names) != len(set(names)) or any(len(g & set(names)) > 1 for g in groups) or \
-                    any(n.kind in rivals and n.parent is not sc for n in self.tree.walk()):
+            # (rivals inside the body itself are fine: one sequential flow visits one line per tick, so two of its
+            # requests never meet in one tick and each command gets its first execution before the next one replaces it)
+            if any(n.kind in rivals and n.parent is not sc for n in self.tree.walk()):
                 continue
             can_abandon = any(n.kind in ("End block", "End blocks") and any(a.kind in ("Watch", "Alarm") for a in n.ancestors())
                               for n in self.tree.walk())
